@@ -356,6 +356,30 @@ func brun(args []string) error {
 			return err
 		}
 	}
+	// databases of more than a thousand rows in which long runs of rows share a timestamp (a coarse recorder clock, several
+	// topics stamped in one callback): whatever way the converter walks the table, every row is converted once
+	nbig := 2
+	if *heavy {
+		nbig = 8
+	}
+	for i := 0; i < nbig; i++ {
+		cfg := g.Cfg()
+		cfg.SkipMagic = false
+		if cfg.Compression == "xor" {
+			cfg.Compression = "zstd"
+		}
+		d := genDB(r)
+		d.Msgs = nil
+		stamps := 1 + []int{0, 2, 7, 40}[r.Intn(4)]
+		nm := 1001 + r.Intn(1300)
+		for k := 0; k < nm; k++ {
+			t := d.Topics[r.Intn(len(d.Topics))]
+			d.Msgs = append(d.Msgs, dbMsg{Topic: t.ID, TS: int64(1000 + 10*r.Intn(stamps)), Data: []byte{byte(k), byte(k >> 8)}})
+		}
+		if err := convertDB(o, sw, *dir, fmt.Sprintf("bigdb%d-%d", *seed, i), d, cfg); err != nil {
+			return err
+		}
+	}
 	// corrupt bags in isolated workers: bad magic, truncation at every byte of a small bag, hostile lengths
 	small := rosgen.EncodeBag([]rosgen.Rec{{Kind: "header"}, {Kind: "chunk", Compression: "none", Inner: []rosgen.Rec{
 		{Kind: "conn", Conn: 1, Topic: "/t", Fields: []rosgen.HField{{Name: "topic", Value: []byte("/t")}, {Name: "type", Value: []byte("a/B")}, {Name: "md5sum", Value: []byte("0")}, {Name: "message_definition", Value: []byte("int32 x")}}},
@@ -616,10 +640,17 @@ func convertDB(o *outFiles, sw *bufio.Writer, dir string, id string, d *dbSpec, 
 			return err
 		}
 	}
+	tx, err := db.Begin()
+	if err != nil {
+		return err
+	}
 	for _, m := range d.Msgs {
-		if _, err = db.Exec(`insert into messages(topic_id,timestamp,data) values(?,?,?)`, m.Topic, m.TS, m.Data); err != nil {
+		if _, err = tx.Exec(`insert into messages(topic_id,timestamp,data) values(?,?,?)`, m.Topic, m.TS, m.Data); err != nil {
 			return err
 		}
+	}
+	if err = tx.Commit(); err != nil {
+		return err
 	}
 	tr := wl.NewTrace()
 	c := wl.CfgEv(cfg)
